@@ -64,11 +64,14 @@ fn int_range(k: Kind) -> (i128, i128) {
         Kind::I8 => (i8::MIN as i128, i8::MAX as i128),
         Kind::I16 => (i16::MIN as i128, i16::MAX as i128),
         Kind::I32 => (i32::MIN as i128, i32::MAX as i128),
-        Kind::I64 | Kind::I128 => (i64::MIN as i128, i64::MAX as i128),
+        // the 128-bit kinds: range of the values that are their own code, see `gen_wide` for the rest
+        Kind::I128 => (-(1i128 << 62), (1i128 << 62) - 1),
+        Kind::I64 => (i64::MIN as i128, i64::MAX as i128),
         Kind::U8 => (0, u8::MAX as i128),
         Kind::U16 => (0, u16::MAX as i128),
         Kind::U32 => (0, u32::MAX as i128),
-        Kind::U64 | Kind::U128 => (0, u64::MAX as i128),
+        Kind::U128 => (0, (1i128 << 62) - 1),
+        Kind::U64 => (0, u64::MAX as i128),
         Kind::Bool => (0, 1),
         _ => (0, 0),
     }
@@ -76,8 +79,63 @@ fn int_range(k: Kind) -> (i128, i128) {
 
 fn int_bits(k: Kind, v: i128) -> u64 {
     match k {
-        Kind::I8 | Kind::I16 | Kind::I32 | Kind::I64 | Kind::I128 => v as i64 as u64,
+        Kind::I8 | Kind::I16 | Kind::I32 | Kind::I64 => v as i64 as u64,
+        Kind::I128 | Kind::U128 => crate::node::wide::encode(v),
         _ => v as u64,
+    }
+}
+
+/// Leaves of the 128-bit kinds beyond what 64 bits hold (as the `i128` with the same bits).
+fn gen_wide(k: Kind, style: LeafStyle, r: u64) -> Option<u64> {
+    use crate::node::wide;
+    let signed = k == Kind::I128;
+    match style {
+        LeafStyle::Specials => {
+            let off = ((r >> 8) % 5) as i128 - 2;
+            let v: i128 = if signed {
+                [
+                    i128::MIN,
+                    i128::MAX,
+                    i128::MIN + 1,
+                    i128::MAX - 1,
+                    i64::MIN as i128 + off,
+                    i64::MAX as i128 + off,
+                    u64::MAX as i128 + off,
+                    -(u64::MAX as i128) + off,
+                    (1i128 << 53) + off,
+                    -(1i128 << 53) + off,
+                    (1i128 << 96) + off,
+                    -(1i128 << 96) + off,
+                    0,
+                    -1,
+                ][(r % 14) as usize]
+            } else {
+                [
+                    u128::MAX as i128,
+                    (u128::MAX - 1) as i128,
+                    i128::MAX,
+                    i128::MIN,
+                    i128::MIN + 1,
+                    i64::MAX as i128 + off,
+                    u64::MAX as i128 + off,
+                    (1i128 << 53) + off,
+                    (1i128 << 96) + off,
+                    (1i128 << 64) + 127,
+                    0,
+                    1,
+                ][(r % 12) as usize]
+            };
+            Some(wide::encode(v))
+        }
+        LeafStyle::RandomBits => {
+            // two in three anywhere in the 128-bit space
+            if r % 3 == 0 {
+                None
+            } else {
+                Some((2u64 << 62) | ((r >> 2) & ((1u64 << 62) - 1)))
+            }
+        }
+        _ => None,
     }
 }
 
@@ -174,6 +232,11 @@ pub fn gen_leaf(rng: &mut Rng, k: Kind, class: GenClass, style: LeafStyle, ordin
         },
         Kind::Bool => r & 1,
         _ => {
+            if matches!(k, Kind::I128 | Kind::U128) {
+                if let Some(b) = gen_wide(k, style, r) {
+                    return b;
+                }
+            }
             let (lo, hi) = int_range(k);
             let v: i128 = match style {
                 LeafStyle::SmallDistinct => {
@@ -298,6 +361,13 @@ pub fn gen_coincident(rng: &mut Rng, e: &TypeEntry) -> Vec<u64> {
 }
 
 fn gen_medium(rng: &mut Rng) -> Medium {
+    let m = gen_medium_structured(rng);
+    // half of the positional media have no structure at all
+    let u = rng.chance(1, 2);
+    Medium { untyped: u && m.framing == Framing::Positional, ..m }
+}
+
+fn gen_medium_structured(rng: &mut Rng) -> Medium {
     Medium {
         framing: match rng.below(10) {
             0..=4 => Framing::KeyedSelfDelim,
@@ -311,6 +381,7 @@ fn gen_medium(rng: &mut Rng) -> Medium {
         size_hint: [SizeHint::None, SizeHint::Exact, SizeHint::Lower, SizeHint::Upper][rng.usize_below(4)],
         filter_fields: rng.chance(1, 6),
         check_names: rng.chance(1, 5),
+        untyped: false,
     }
 }
 
@@ -476,7 +547,7 @@ pub fn random_plan(reg: &[TypeEntry], seed: u64, run: u64) -> Plan {
     let style = [LeafStyle::SmallDistinct, LeafStyle::RandomBits, LeafStyle::Specials, LeafStyle::Mixed, LeafStyle::Typical][rng.usize_below(5)];
     let gen = if rng.chance(1, 5) { gen_coincident(&mut rng, e) } else { gen_leaves(&mut rng, &e.gen_kinds, style) };
     let probe = &e.probes[probe_index(&medium)];
-    let mut plan = Plan { ty: e.name.clone(), gen, patch: None, medium, wfaults: vec![], rfaults: vec![], retry: false, in_place: false };
+    let mut plan = Plan { ty: e.name.clone(), gen, patch: None, medium, wfaults: vec![], rfaults: vec![], retry: false, in_place: false, null_field: None };
 
     // swarm: which fault classes this run may use at all
     let mode = rng.below(100);
@@ -535,6 +606,17 @@ pub fn random_plan(reg: &[TypeEntry], seed: u64, run: u64) -> Plan {
         plan.retry = rng.chance(1, 4);
     }
     plan.in_place = rng.chance(1, 6);
+    if rng.chance(1, 16) && plan.wfaults.is_empty() && !probe.records.is_empty() {
+        // a key whose data did not arrive; judged on its own
+        let (path, keys) = &probe.records[if e.is_dec && rng.chance(1, 2) { 0 } else { rng.usize_below(probe.records.len()) }];
+        if !keys.is_empty() {
+            let mut p = path.clone();
+            p.push(rng.usize_below(keys.len()) as u8);
+            plan.null_field = Some(p);
+            plan.rfaults.clear();
+            plan.patch = None;
+        }
+    }
     plan
 }
 
@@ -574,8 +656,9 @@ pub fn sweep_plans(reg: &[TypeEntry]) -> Vec<Plan> {
                     size_hint: [SizeHint::None, SizeHint::Exact, SizeHint::Lower][fi],
                     filter_fields: newtype == NewtypeMode::Wrapped && fi == 0,
                     check_names: newtype == NewtypeMode::Wrapped,
+                    untyped: false,
                 };
-                let base = Plan { ty: e.name.clone(), gen: gen.clone(), patch: None, medium, wfaults: vec![], rfaults: vec![], retry: false, in_place: false };
+                let base = Plan { ty: e.name.clone(), gen: gen.clone(), patch: None, medium, wfaults: vec![], rfaults: vec![], retry: false, in_place: false, null_field: None };
                 let p = &e.probes[probe_index(&medium)];
                 // fault-free
                 out.push(base.clone());
@@ -604,6 +687,40 @@ pub fn sweep_plans(reg: &[TypeEntry]) -> Vec<Plan> {
                 }
             }
         }
+        // the medium without structure (bincode-like): every component is "the next number", so
+        // only the order in which reader and writer take the components keeps them apart
+        for nums in [NumDelivery::Typed, NumDelivery::Widened] {
+            for hr in [false, true] {
+                let medium = Medium { framing: Framing::Positional, untyped: true, nums, human_readable: hr, size_hint: if hr { SizeHint::None } else { SizeHint::Exact }, ..Medium::DEFAULT };
+                let base = Plan { ty: e.name.clone(), gen: gen.clone(), patch: None, medium, wfaults: vec![], rfaults: vec![], retry: false, in_place: false, null_field: None };
+                out.push(base.clone());
+                let mut q = base.clone();
+                q.in_place = true;
+                out.push(q);
+                let mut q = base.clone();
+                q.gen = e.identity_gen.clone();
+                out.push(q);
+            }
+        }
+        // every key of every record, once with its value replaced by null / unit
+        for hr in [true, false] {
+            for framing in [Framing::KeyedSelfDelim, Framing::Positional] {
+                let medium = Medium { framing, human_readable: hr, ..Medium::DEFAULT };
+                let recs = e.probes[probe_index(&medium)].records.clone();
+                for (path, keys) in &recs {
+                    for i in 0..keys.len() as u8 {
+                        let mut np = path.clone();
+                        np.push(i);
+                        let mut q = Plan { ty: e.name.clone(), gen: gen.clone(), patch: None, medium, wfaults: vec![], rfaults: vec![], retry: false, in_place: false, null_field: Some(np) };
+                        out.push(q.clone());
+                        if hr {
+                            q.in_place = true;
+                            out.push(q);
+                        }
+                    }
+                }
+            }
+        }
         if !e.is_dec {
             continue;
         }
@@ -612,7 +729,7 @@ pub fn sweep_plans(reg: &[TypeEntry]) -> Vec<Plan> {
         for framing in [Framing::KeyedSelfDelim, Framing::KeyedLenPrefixed] {
             for (ki, key_form) in [KeyForm::Str, KeyForm::Borrowed, KeyForm::String, KeyForm::Bytes, KeyForm::BorrowedBytes, KeyForm::Index].into_iter().enumerate() {
                 let medium = Medium { framing, key_form, size_hint: [SizeHint::Lower, SizeHint::None, SizeHint::Exact, SizeHint::Upper][ki % 4], ..Medium::DEFAULT };
-                let base = Plan { ty: e.name.clone(), gen: gen.clone(), patch: None, medium, wfaults: vec![], rfaults: vec![], retry: false, in_place: false };
+                let base = Plan { ty: e.name.clone(), gen: gen.clone(), patch: None, medium, wfaults: vec![], rfaults: vec![], retry: false, in_place: false, null_field: None };
                 let p = &e.probes[probe_index(&medium)];
                 let n = p.records.first().map(|r| r.1.len()).unwrap_or(0);
                 if n == 0 || n > 4 {
@@ -854,6 +971,7 @@ pub fn shrink_candidates(p: &Plan, reg: &[TypeEntry]) -> Vec<Plan> {
     knob!(size_hint);
     knob!(filter_fields);
     knob!(check_names);
+    knob!(untyped);
     if p.medium.framing == Framing::KeyedLenPrefixed {
         let mut q = p.clone();
         q.medium.framing = Framing::KeyedSelfDelim;
@@ -1002,6 +1120,19 @@ pub fn random_jplan(reg: &[TypeEntry], seed: u64, run: u64) -> JPlan {
         }
     }
     p.in_place = p.reader != JReader::Value && rng.chance(1, 6);
+    if rng.chance(1, 16) && p.w_err.is_none() && !probe.records.is_empty() {
+        let (path, keys) = &probe.records[if e.is_dec && rng.chance(1, 2) { 0 } else { rng.usize_below(probe.records.len()) }];
+        if !keys.is_empty() {
+            let mut np = path.clone();
+            np.push(rng.usize_below(keys.len()) as u8);
+            p.null_field = Some(np);
+            p.rfaults.clear();
+            p.patch = None;
+            p.trunc_at = None;
+            p.flip = None;
+            p.r_err_at = None;
+        }
+    }
     if (p.reader == JReader::Flatten || p.reader == JReader::Containers) && (p.trunc_at.is_some() || p.flip.is_some() || p.r_err_at.is_some()) {
         // the splice would move the byte offsets; damaged bytes go through the plain slice reader
         p.reader = JReader::Slice;
@@ -1031,6 +1162,24 @@ pub fn sweep_jplans(reg: &[TypeEntry]) -> Vec<JPlan> {
                     q.r_eintr_every = 3;
                 }
                 out.push(q);
+            }
+        }
+        // every key of every record, once with `null` for its value, through every reader
+        let recs = e.probes[probe_index(&Medium::DEFAULT)].records.clone();
+        for (path, keys) in &recs {
+            for i in 0..keys.len() as u8 {
+                for reader in [JReader::Slice, JReader::Reader, JReader::Value, JReader::Flatten, JReader::Untagged, JReader::Containers] {
+                    let mut np = path.clone();
+                    np.push(i);
+                    let mut q = base.clone();
+                    q.reader = reader;
+                    q.null_field = Some(np);
+                    out.push(q.clone());
+                    if reader == JReader::Slice {
+                        q.in_place = true;
+                        out.push(q);
+                    }
+                }
             }
         }
         // every write() call fails once / from then on
